@@ -27,7 +27,7 @@ from pathlib import Path
 import vlib
 
 CLANG = "clang++-14"
-VERSION = "9"          # bump to invalidate the cache when the extraction logic changes
+VERSION = "10"          # bump to invalidate the cache when the extraction logic changes
 
 # ---------------------------------------------------------------------------------------------------- reviewed lists
 # functions that make up the reset path of the engine.  Everything these functions call on `this` must be either in
@@ -64,11 +64,11 @@ SCRATCH = {}
 SCRATCH_FILE = Path(__file__).resolve().parent / "c07_scratch.txt"   # not used: list kept inline below
 
 
-def _cmd(tu):
+def _cmd(tu, flt="Phreeqc"):
     R = vlib.REPO
     return [CLANG, "-std=gnu++17", "-fsyntax-only", "-w", "-DSWIG_SHARED_OBJ", "-DUSE_PHRQ_ALLOC", "-D" + vlib.GUARD,
             f"-I{R}/src", f"-I{R}/src/phreeqcpp", f"-I{R}/src/phreeqcpp/common", f"-I{R}/src/phreeqcpp/PhreeqcKeywords",
-            "-Xclang", "-ast-dump=json", "-Xclang", "-ast-dump-filter=Phreeqc", str(tu)]
+            "-Xclang", "-ast-dump=json", "-Xclang", "-ast-dump-filter=" + flt, str(tu)]
 
 
 # ---------------------------------------------------------------------------------------------------- AST walking
@@ -282,6 +282,19 @@ def collect_types(n, types, owner_ptr):
         collect_types(c, types, owner_ptr)
 
 
+PROLOGUE = {"read_input": "check_line"}     # resets at the top of a function, before its first call of the named method
+
+
+def calls_method(n, meth):
+    if not isinstance(n, dict):
+        return False
+    if n.get("kind") == "CXXMemberCallExpr" and n.get("inner"):
+        c, _ = strip(n["inner"][0])
+        if c is not None and c.get("kind") == "MemberExpr" and c.get("name") == meth:
+            return True
+    return any(calls_method(c, meth) for c in n.get("inner", []))
+
+
 def split_params(s):
     out, depth, cur = [], 0, ""
     for ch in s:
@@ -325,7 +338,7 @@ def parse_objects(txt):
 
 def summarize_tu(tu, cls, owner_ptr=None):
     """returns dict(fields=[(name,type,static?)] or None, methods={name: {resets,writes,calls,file,line}}, ctor_inits=[...])"""
-    r = subprocess.run(_cmd(tu), capture_output=True, text=True)
+    r = subprocess.run(_cmd(tu, "PHRQ_io" if cls == "PHRQ_io" else "Phreeqc"), capture_output=True, text=True)
     if r.returncode != 0 and not r.stdout:
         raise RuntimeError(f"clang failed on {tu}: {r.stderr[-500:]}")
     fields, bases = None, []
@@ -357,6 +370,7 @@ def summarize_tu(tu, cls, owner_ptr=None):
         annotate_member_call_types(d, method_types)
         S = FnSummary()
         inits = []
+        prologue = None
         for x in d.get("inner", []):
             if x.get("kind") == "CXXCtorInitializer":
                 nm = x.get("anyInit", {}).get("name")
@@ -368,6 +382,13 @@ def summarize_tu(tu, cls, owner_ptr=None):
                     walk(c, S, owner_ptr)
             elif x.get("kind") == "CompoundStmt":
                 walk(x, S, owner_ptr)
+                if d.get("name") in PROLOGUE:
+                    P = FnSummary()
+                    for st in x.get("inner", []):
+                        if calls_method(st, PROLOGUE[d.get("name")]):
+                            break
+                        walk(st, P, owner_ptr)
+                    prologue = dict(resets=sorted(P.resets), mcalls=sorted(P.mcalls))
         name = d.get("name", "?")
         if d.get("kind") == "CXXConstructorDecl":
             nparam = sum(1 for x in d.get("inner", []) if x.get("kind") == "ParmVarDecl")
@@ -381,10 +402,12 @@ def summarize_tu(tu, cls, owner_ptr=None):
         e["writes"] |= S.writes
         e["calls"] |= S.calls
         e["mcalls"] |= S.mcalls
+        if prologue:
+            e["prologue"] = prologue
         e["where"].append(f"{Path(loc.get('file', str(tu))).name}:{loc.get('line', d.get('range', {}).get('begin', {}).get('line', 0))}")
     return dict(fields=fields, bases=bases, types=types,
                 methods={k: dict(resets=sorted(v["resets"]), writes=sorted(v["writes"]), calls=sorted(v["calls"]),
-                                 mcalls=sorted(v["mcalls"]), where=v["where"])
+                                 mcalls=sorted(v["mcalls"]), where=v["where"], prologue=v.get("prologue"))
                          for k, v in methods.items()})
 
 
@@ -431,6 +454,7 @@ def collect(ctx=None):
     hh = header_hash()
     jobs = [(str(t), "Phreeqc", None, hh, str(cdir)) for t in engine_tus()]
     jobs.append((str(vlib.REPO / "src" / "IPhreeqc.cpp"), "IPhreeqc", "PhreeqcPtr", hh, str(cdir)))
+    jobs.append((str(vlib.REPO / "src" / "phreeqcpp" / "common" / "PHRQ_io.cpp"), "PHRQ_io", None, hh, str(cdir)))
     res, errors, cached = {}, [], 0
     with concurrent.futures.ThreadPoolExecutor(max_workers=min(12, vlib.NCPU)) as ex:
         futs = {ex.submit(_one, j): j for j in jobs}
@@ -460,6 +484,8 @@ def merged(res, cls):
             for q in ("resets", "writes", "calls", "mcalls"):
                 e[q] |= set(v[q])
             e["where"] += v["where"]
+            if v.get("prologue"):
+                e["prologue"] = v["prologue"]
     return fields, types, M
 
 
@@ -552,3 +578,330 @@ def gen_dump_header(fields, types):
         if exe.exists():
             exe.unlink()
     return dumped, skipped
+
+
+# ---------------------------------------------------------------------------------------------------- classification
+SCRATCH = {
+    "phrq_io": "pointer to the owning IPhreeqc object; set once by the constructor",
+    "ioInstance": "fallback PHRQ_io of a stand-alone Phreeqc; unused because phrq_io points to the IPhreeqc object",
+    "last_model": "see last_model.numerical_fixed_volume (all other fields are reset)",
+    "last_model.numerical_fixed_volume": "only compared by check_same_model when last_model.force_prep is false; init() sets force_prep and the first prep() stores the whole last_model",
+    "charge_group_map": "calc_all_donnan / calc_init_donnan clear and refill it before reading",
+    "Dispersion_mix_map": "rebuilt by init_mix/set_transport at the start of transport(), erased by transport_cleanup",
+    "description_x": "assigned by prep()/xsolution_zero() for the solution being calculated",
+    "units_x": "assigned the constant moles_per_kilogram_string by xsolution_zero()",
+    "default_pe_x": "cleared and assigned by setup_solution (prep) before it is read",
+    "mixrun": "assigned by transport() before use",
+    "s_diff_layer": "resized and refilled by calc_init_g / calc_init_donnan for every surface calculation",
+    "sit_aqueous_unknowns": "assigned by build_model",
+    "gas_unknowns": "cleared by setup_fixed_volume_gas; readers are guarded by gas_unknown, which init() sets to NULL",
+    "status_string": "screen status text", "screen_string": "screen status text",
+    "rate_p": "cleared and filled from the KINETICS parameters by calc_kinetic_reaction before every rate evaluation",
+    "fpunchf_user_buffer": "snprintf'ed immediately before each use (first byte zeroed by init)",
+    "max_strings": "never written or read",
+    "kgw_kgs": "assigned by initial_solutions before use", "bdot_llnl": "assigned by gammas() before use",
+    "user_database": "only used by the stand-alone main program (class_main.cpp, not in the library)",
+    "solution_volume_x": "assigned by calc_dens", "solution_mass_x": "assigned by calc_dens",
+    "rho_0_sat": "assigned by calc_rho_0", "SC": "assigned by calc_SC",
+    "sys": "cleared and filled by system_total*",
+    "sum_species_map": "cleared by build_model, which the first calculation after a load runs (force_prep)",
+    "sum_species_map_db": "cleared by build_model, which the first calculation after a load runs (force_prep)",
+    "tally_table": "freed column by column in free_tally_table (clean_up); only used by the PHAST tally interface",
+    "inverse_heading_names": "cleared and filled by punch_model_heading",
+}
+for _n in ("x_arg", "res_arg", "scratch"):
+    SCRATCH[_n] = "cl1 work array: resized and zero-filled by cl1_space before every cl1 call"
+for _n in ("col_name", "row_name", "inv_zero", "array1", "inv_res", "inv_delta1", "delta2", "delta3", "inv_cu", "delta_save", "min_delta",
+           "max_delta", "inv_iu", "inv_is", "row_back", "col_back", "good", "bad", "minimal"):
+    SCRATCH[_n] = "inverse-modelling work array: sized and filled by setup_inverse/solve_inverse for every INVERSE_MODELING run"
+for _n in ("normal", "ineq_array", "res", "cu", "zero", "delta1", "iu", "is", "back_eq"):
+    SCRATCH[_n] = "ineq() work array: resized and filled at the start of every ineq() call"
+for _n in ("s_list", "cation_list", "neutral_list", "anion_list", "ion_list", "param_list"):
+    SCRATCH[_n] = "cleared and filled by pitzer_make_lists / sit_make_lists for every model"
+
+# the property's own exception: user-set file names survive a load
+FILE_NAMES = {"dump_file_name_cpp": "TRANSPORT -dump_file name", "dump_info.file_name": "DUMP -file name (kept on purpose by UnLoadDatabase)"}
+
+# known-finding keys -> members they cover (a `finding: property=C07 key=<key>` line in known_findings.txt puts them in knownUnreset)
+FINDING_KEYS = {
+    "unreset-mix-maps": ["Rxn_solution_mix_map", "Rxn_exchange_mix_map", "Rxn_gas_phase_mix_map", "Rxn_kinetics_mix_map",
+                         "Rxn_pp_assemblage_mix_map", "Rxn_ss_assemblage_mix_map", "Rxn_surface_mix_map"],
+    "unreset-copy-lists": ["copy_solution", "copy_pp_assemblage", "copy_exchange", "copy_surface", "copy_ss_assemblage", "copy_gas_phase",
+                           "copy_kinetics", "copy_mix", "copy_reaction", "copy_temperature", "copy_pressure"],
+    "unreset-run-delete-info": ["run_info", "delete_info"],
+    "unreset-unnumbered-solutions": ["unnumbered_solutions"],
+    "unreset-caches": ["gfw_map", "rates_map"],
+    "unreset-io-flags": ["io.log_on", "io.punch_on", "io.dump_on"],
+}
+
+# data members of class IPhreeqc (+ base PHRQ_io, prefix io.): what a load does with them
+WRAPPER_CLASS = {
+    "Index": ("id", "instance id"),
+    "OutputFileOn": ("switch", ""), "LogFileOn": ("switch", ""), "ErrorFileOn": ("switch", ""), "DumpOn": ("switch", ""),
+    "DumpStringOn": ("switch", ""), "OutputStringOn": ("switch", ""), "LogStringOn": ("switch", ""), "ErrorStringOn": ("switch", ""),
+    "io.error_on": ("switch", "SetErrorOn"),
+    "OutputFileName": ("name", ""), "ErrorFileName": ("name", ""), "LogFileName": ("name", ""), "DumpFileName": ("name", ""),
+    "SelectedOutputFileNameMap": ("name", ""),
+    "DatabaseLoaded": ("unload", ""), "ClearAccumulated": ("unload", ""), "UpdateComponents": ("unload", ""),
+    "SelectedOutputFileOnMap": ("unload", ""), "SelectedOutputStringOn": ("unload", ""), "CurrentSelectedOutputUserNumber": ("unload", ""),
+    "SelectedOutputMap": ("unload", ""), "SelectedOutputStringMap": ("unload", ""), "SelectedOutputLinesMap": ("unload", ""),
+    "StringInput": ("unload", "via ClearAccumulatedLines"), "DumpString": ("unload", ""), "DumpLines": ("unload", ""),
+    "Components": ("unload", ""), "ErrorString": ("unload", ""), "WarningString": ("unload", ""), "io.io_error_count": ("unload", ""),
+    "ErrorReporter": ("unload", "ErrorReporter->Clear()"), "WarningReporter": ("unload", "WarningReporter->Clear()"),
+    "OutputString": ("percall", "check_database"), "OutputLines": ("percall", "check_database"),
+    "LogString": ("percall", "check_database"), "LogLines": ("percall", "check_database"),
+    "ErrorLines": ("percall", "update_errors"), "WarningLines": ("percall", "update_errors"),
+    "WarningStringOn": ("const", "no setter exists"),
+    "PhreeqcPtr": ("const", "engine pointer"), "input_file": ("const", "always NULL"), "database_file": ("const", "always NULL"),
+    "EquilibriumPhasesList": ("derived", "refilled by ListComponents when UpdateComponents"),
+    "GasComponentsList": ("derived", ""), "KineticReactionsList": ("derived", ""), "SolidSolutionComponentsList": ("derived", ""),
+    "SolidSolutionNamesList": ("derived", ""), "SurfaceTypeList": ("derived", ""), "SurfaceNamesList": ("derived", ""),
+    "ExchangeNamesList": ("derived", ""),
+    "io.output_ostream": ("percall", "close_output_files"), "io.log_ostream": ("percall", "close_output_files"),
+    "io.punch_ostream": ("percall", "close_output_files"), "io.error_ostream": ("percall", "close_output_files"),
+    "io.dump_ostream": ("percall", "close_output_files"),
+    "io.output_on": ("const", "never changed by the library"), "io.screen_on": ("const", "never changed by the library"),
+    "io.echo_destination": ("const", "never changed by the library"),
+    "io.log_on": ("ioflag", "KNOBS -logfile"), "io.punch_on": ("ioflag", "PRINT -selected_output"), "io.dump_on": ("ioflag", "PRINT -dump"),
+    "io.echo_on": ("ioflag", "PRINT -echo_input"),
+    "io.istream_list": ("percall", "clear_istream"), "io.delete_istream_list": ("percall", "clear_istream"),
+    "io.m_line": ("percall", "line reader scratch"), "io.m_line_save": ("percall", "line reader scratch"),
+    "io.accumulated": ("percall", "line reader scratch"), "io.m_next_keyword": ("percall", "line reader scratch"),
+    "io.accumulate": ("percall", "line reader scratch"), "io.m_line_type": ("percall", "line reader scratch"),
+}
+
+
+def lean_str(s):
+    return '"' + s.replace("\\", "\\\\").replace('"', '\\"') + '"'
+
+
+def nat_list(xs, per=24):
+    xs = list(xs)
+    rows = [", ".join(str(x) for x in xs[i:i + per]) for i in range(0, len(xs), per)]
+    return "[" + ",\n   ".join(rows) + "]"
+
+
+def str_list(xs, per=6):
+    xs = list(xs)
+    rows = [", ".join(lean_str(x) for x in xs[i:i + per]) for i in range(0, len(xs), per)]
+    return "[" + ",\n   ".join(rows) + "]"
+
+
+def known_keys():
+    keys = set()
+    if vlib.KNOWN.exists():
+        for line in vlib.KNOWN.read_text().splitlines():
+            m = re.match(r"finding:\s+property=C07\s+key=(\S+)", line)
+            if m:
+                keys.add(m.group(1))
+    return keys
+
+
+def reach(M, start):
+    seen, st = set(), list(start)
+    while st:
+        n = st.pop()
+        if n in seen or n not in M:
+            continue
+        seen.add(n)
+        st += [c for c in M[n]["calls"] if not c.startswith("E:")]
+    return seen
+
+
+def analyse(res, errors):
+    fields, types, M = merged(res, "Phreeqc")
+    wf, wt, WM = merged(res, "IPhreeqc")
+    iof, iot, IOM = merged(res, "PHRQ_io")
+    errs = list(errors)
+    if not fields:
+        errs.append("class Phreeqc not found in the AST")
+        fields = []
+    if not wf:
+        errs.append("class IPhreeqc not found in the AST")
+        wf = []
+    if not iof:
+        errs.append("class PHRQ_io not found in the AST")
+        iof = []
+    top = [f[0] for f in fields]
+    subs = sorted(k for k in types if "." in k and k.split(".")[0] in top)
+    names = top + subs
+    idx = {n: i for i, n in enumerate(names)}
+    parent = [(idx[s], idx[s.split(".")[0]]) for s in subs]
+
+    def ids(paths):
+        return sorted({idx[p] for p in paths if p in idx})
+
+    unknown = []
+    A, C = set(), set()
+    allowed = set(RESET_INIT + RESET_CLEAN)
+    for grp, acc in ((RESET_INIT, A), (RESET_CLEAN, C)):
+        for fn in grp:
+            if fn not in M:
+                unknown.append(f"{fn}: reset function not found")
+                continue
+            acc |= M[fn]["resets"]
+            for c in M[fn]["calls"]:
+                if c not in allowed and c not in RESET_IGNORED:
+                    unknown.append(f"{fn} -> {c}")
+    # UnLoadDatabase: engine members it resets itself
+    U = set()
+    un = WM.get("UnLoadDatabase")
+    wrapper = {}
+    if not un:
+        errs.append("IPhreeqc::UnLoadDatabase not found")
+        un = dict(resets=set(), writes=set(), calls=set(), mcalls=set())
+    for must in ("E:clean_up", "E:init", "E:do_initialize"):
+        if must not in un["calls"]:
+            unknown.append(f"UnLoadDatabase no longer calls {must[2:]}")
+    U |= {p[2:] for p in un["resets"] if p.startswith("E:")}
+    if {"E:dump_info.SetAll", "E:dump_info.Set_append", "E:dump_info.Set_on"} <= un["mcalls"]:
+        U.add("dump_info")
+    # per-simulation prologue of read_input
+    S = set()
+    pro = (M.get("read_input") or {}).get("prologue")
+    if not pro:
+        errs.append("read_input prologue not recognised")
+        pro = dict(resets=[], mcalls=[])
+    S |= set(pro["resets"])
+    if "use.init" in pro["mcalls"]:
+        S.add("use")
+    # readers
+    R = reach(M, ["read_input"])
+    if len(R) < 100 or not any(r.startswith("read_") for r in R):
+        errs.append(f"reader call graph too small ({len(R)} functions)")
+    Wset = set()
+    for fn in R:
+        Wset |= M[fn]["writes"]
+    # PHRQ_io flags set by readers / reset by the load path
+    def io_flags(mcalls, calls=()):
+        out = set()
+        for m in list(mcalls) + list(calls):
+            mm = re.match(r"(?:phrq_io->)?Set_(\w+)_on$", m)
+            if mm:
+                out.add("io." + mm.group(1) + "_on")
+        return out
+    Wio = set()
+    for fn in R:
+        Wio |= io_flags(M[fn]["mcalls"])
+    Sio = io_flags(pro["mcalls"])
+    Uio = io_flags([], un["calls"])
+    # wrapper
+    wnames = [f[0] for f in wf] + ["io." + f[0] for f in iof]
+    w_unload = set(un["resets"]) | {m.split("->")[0] for m in un["mcalls"] if m.endswith("->Clear")}
+    if "ClearAccumulatedLines" in un["calls"]:
+        w_unload |= set((WM.get("ClearAccumulatedLines") or {}).get("writes", []))
+    w_unload = {("io." + p if p in [f[0] for f in iof] else p) for p in w_unload if not p.startswith("E:")}
+    w_unload_writes = {("io." + p if p in [f[0] for f in iof] else p) for p in un["writes"] if not p.startswith("E:")} | w_unload
+    percall = set()
+    for fn in ("check_database", "update_errors", "close_output_files"):
+        if fn not in WM:
+            errs.append(f"IPhreeqc::{fn} not found")
+            continue
+        percall |= set(WM[fn]["resets"]) | set(WM[fn]["writes"])
+    percall = {("io." + p if p in [f[0] for f in iof] else p) for p in percall if not p.startswith("E:")}
+    ctor = WM.get("<ctor>", dict(resets=set()))
+    keys = known_keys()
+    known = set()
+    for k in keys:
+        known |= set(FINDING_KEYS.get(k, []))
+    return dict(names=names, idx=idx, parent=parent, top=top, subs=subs, A=A, C=C, U=U, S=S, W=Wset, R=R, unknown=sorted(set(unknown)),
+                errors=errs, Wio=Wio, Sio=Sio, Uio=Uio, wnames=wnames, w_unload=w_unload, w_unload_writes=w_unload_writes,
+                percall=percall, ctor=set(ctor["resets"]), known=known, keys=keys, M=M, WM=WM, types=types, fields=fields)
+
+
+def covered_py(a, p):
+    R = a["A"] | a["C"] | a["U"] | a["S"]
+    if p in R or p.split(".")[0] in R:
+        return True
+    kids = [q for q in a["subs"] if q.startswith(p + ".")]
+    return bool(kids) and all(q in R for q in kids)
+
+
+def uncovered_readers(a):
+    """reader-written member paths that no part of the load path resets (file names excepted)"""
+    out = []
+    for p in sorted(a["W"]):
+        if p not in a["idx"]:
+            continue
+        if covered_py(a, p) or p in FILE_NAMES:
+            continue
+        if "." in p and not covered_py(a, p.split(".")[0]) and p.split(".")[0] in a["W"]:
+            continue                     # reported once, under its parent
+        out.append(p)
+    return out
+
+
+def unaccounted(a):
+    return [p for p in a["names"] if not covered_py(a, p) and p not in SCRATCH and p not in FILE_NAMES
+            and p.split(".")[0] not in SCRATCH and p not in a["W"] and p.split(".")[0] not in a["W"]]
+
+
+def emit_lean(a):
+    idx = a["idx"]
+
+    def ids(paths):
+        return sorted({idx[p] for p in paths if p in idx})
+    L = []
+    L.append("/- GENERATED by tools/gen_members.py from the clang-14 AST of /repo/src -- do not edit.\n"
+             "   Member paths of class Phreeqc are numbered; `names` gives the text. -/")
+    L.append("namespace PhreeqcVerif.Gen.Members\n")
+    L.append(f"/-- every non-static data member of class Phreeqc ({len(a['top'])}) followed by the directly accessed fields of its struct-typed members ({len(a['subs'])}) -/")
+    L.append(f"def names : List String :=\n  {str_list(a['names'])}\n")
+    L.append(f"def memberCount : Nat := {len(a['names'])}\n")
+    L.append(f"/-- (field path, its parent member) -/\ndef parentOf : List (Nat × Nat) :=\n  [{', '.join(f'({c}, {p})' for c, p in a['parent'])}]\n")
+    L.append(f"/-- A: reset-assigned by {', '.join(RESET_INIT)} -/\ndef initAssigned : List Nat :=\n  {nat_list(ids(a['A']))}\n")
+    L.append(f"/-- C: cleared/freed by {', '.join(RESET_CLEAN)} -/\ndef cleaned : List Nat :=\n  {nat_list(ids(a['C']))}\n")
+    L.append(f"/-- U: engine members IPhreeqc::UnLoadDatabase resets itself -/\ndef unloadReset : List Nat :=\n  {nat_list(ids(a['U']))}\n")
+    L.append(f"/-- S: reset at the top of read_input(), before the first input line of every simulation is read -/\ndef simPrologue : List Nat :=\n  {nat_list(ids(a['S']))}\n")
+    L.append(f"/-- W: written (in any way) by a function reachable from read_input() ({len(a['R'])} functions) -/\ndef readerWritten : List Nat :=\n  {nat_list(ids(a['W']))}\n")
+    sc = [p for p in a["names"] if p in SCRATCH]
+    L.append("/-- reviewed: members whose value cannot carry history into a result (reason = who overwrites it before any read) -/")
+    L.append("def scratchReasons : List (Nat × String) :=\n  [" + ",\n   ".join(f"({idx[p]}, {lean_str(SCRATCH[p])})" for p in sc) + "]\n")
+    L.append("def scratch : List Nat := scratchReasons.map (·.1)\n")
+    fn = [p for p in a["names"] if p in FILE_NAMES]
+    L.append(f"/-- file names set by the user's input: allowed to survive by the property -/\ndef fileNames : List Nat := {nat_list(ids(fn))}\n")
+    L.append(f"/-- members covered by a `finding: property=C07 key=…` line of known_findings.txt (keys: {sorted(a['keys'])}) -/\n"
+             f"def knownUnreset : List Nat := {nat_list(ids(a['known']))}\n")
+    L.append(f"def unknownResetCallees : List String := {str_list(a['unknown'])}\n")
+    L.append(f"def translatorErrors : List String := {str_list(a['errors'])}\n")
+    # io flags
+    L.append(f"def ioFlagsSetByReaders : List String := {str_list(sorted(a['Wio']))}")
+    L.append(f"def ioFlagsResetByPrologue : List String := {str_list(sorted(a['Sio']))}")
+    L.append(f"def ioFlagsResetByUnload : List String := {str_list(sorted(a['Uio']))}")
+    L.append(f"def knownUnresetIo : List String := {str_list(sorted(p for p in a['known'] if p.startswith('io.')))}\n")
+    # wrapper
+    L.append("/-- data members of class IPhreeqc and (prefix io.) of its base PHRQ_io -/")
+    L.append(f"def wrapperFields : List String :=\n  {str_list(a['wnames'])}\n")
+    L.append("/-- reviewed classification: id | switch | name (survivors), unload (reset by UnLoadDatabase), percall (overwritten by every Run*, hence by\n"
+             "    test_db), derived (refilled on demand), const, ioflag (PHRQ_io flag that input can set) -/")
+    L.append("def wrapperClass : List (String × String) :=\n  [" + ",\n   ".join(f"({lean_str(k)}, {lean_str(v[0])})" for k, v in WRAPPER_CLASS.items()) + "]\n")
+    L.append(f"/-- wrapper members IPhreeqc::UnLoadDatabase resets (assignment, .clear(), Reporter->Clear()) -/\ndef wrapperUnloadResets : List String :=\n  {str_list(sorted(a['w_unload']))}\n")
+    L.append(f"/-- wrapper members IPhreeqc::UnLoadDatabase writes in any way -/\ndef wrapperUnloadWrites : List String :=\n  {str_list(sorted(a['w_unload_writes']))}\n")
+    L.append(f"/-- wrapper members written by check_database / update_errors / close_output_files (run by every Run*) -/\ndef wrapperPerCall : List String :=\n  {str_list(sorted(a['percall']))}\n")
+    L.append("end PhreeqcVerif.Gen.Members")
+    return "\n".join(L) + "\n"
+
+
+def generate(ctx=None):
+    res, errors, cached = collect(ctx)
+    a = analyse(res, errors)
+    text = emit_lean(a)
+    out = vlib.LEAN / "PhreeqcVerif" / "Gen" / "Members.lean"
+    changed = write_if_changed(out, text)
+    dumped, skipped = gen_dump_header(a["fields"], a["types"])
+    info = dict(members=len(a["top"]), field_paths=len(a["subs"]), init_assigned=len(a["A"]), cleaned=len(a["C"]),
+                unload_reset=sorted(a["U"]), sim_prologue=len(a["S"]), reader_functions=len(a["R"]), reader_written=len(a["W"]),
+                scratch=len([p for p in a["names"] if p in SCRATCH]), uncovered_readers=uncovered_readers(a), unaccounted=unaccounted(a),
+                unknown_reset_callees=a["unknown"], translator_errors=a["errors"], tus_cached=cached, tus=len(res),
+                dumped_members=len(dumped), not_dumped=skipped, lean_changed=changed,
+                io_flags=dict(readers=sorted(a["Wio"]), prologue=sorted(a["Sio"]), unload=sorted(a["Uio"])),
+                wrapper_fields=len(a["wnames"]), known_keys=sorted(a["keys"]))
+    if ctx is not None:
+        ctx.log("gen_members:", {k: info[k] for k in ("members", "init_assigned", "cleaned", "reader_written", "uncovered_readers", "unaccounted",
+                                                      "unknown_reset_callees", "translator_errors", "tus_cached")})
+    return info, a
+
+
+if __name__ == "__main__":
+    i, _ = generate()
+    print(json.dumps(i, indent=1))
